@@ -18,7 +18,7 @@ from props import c11_world as cw
 PRE = ('From Coq Require Import ZArith List Bool.\nFrom V Require Import Model.Build Spec.C11 Model.BuildCheck.\n'
        'Import ListNotations.\nOpen Scope Z_scope.\n')
 BITS = ['single_driver', 'unique_children', 'unique_wires', 'children_stay', 'drivers_stay', 'wires_stay',
-        'conflict_must_raise', 'sinks_exact', 'raising_call_leaves_state_untouched', 'every_wire_registered']
+        'conflict_must_raise', 'sinks_exact', 'raising_call_leaves_state_untouched', 'every_wire_registered', 'bidir_sources_exact']
 
 
 def bit_names(b): return [n for i, n in enumerate(BITS) if b >> i & 1]
@@ -83,12 +83,17 @@ def judge_sequence(ctx, V, tag, ops, rec, W, res):
 
 
 def judge_integrity(ctx, V, where, real, txt, mv, spec_bad, stray):
+    flags = int(stray)                      # bit 0: a visited in-port's source is in no port list of its block; bit 1: a visited port is on a BidirWire
     if real != bool(spec_bad):
-        d = dict(where)
-        d.update({'what': 'checkIntegrity verdict differs from "some visited (in/out) port is attached to an undriven wire"',
-                  'impl_raises': real, 'impl_exception': txt, 'spec_says_undriven_port_exists': bool(spec_bad),
-                  'source_port_in_no_port_list_of_its_block': bool(stray)})
-        V.spec_fail.append(d)
+        if real and not spec_bad and (flags & 2) and known(ctx, 'F3-checkIntegrity-crashes-on-BidirWire'):
+            ctx.known_finding('F3-checkIntegrity-crashes-on-BidirWire',
+                              'F3 checkIntegrity raises AttributeError for an in/out port attached to a BidirWire although blocks drive it (BidirWire.getSource reads self.source, which a BidirWire never has)')
+        else:
+            d = dict(where)
+            d.update({'what': 'checkIntegrity verdict differs from "some visited (in/out) port is attached to a wire that no block drives"',
+                      'impl_raises': real, 'impl_exception': txt, 'spec_says_undriven_port_exists': bool(spec_bad),
+                      'source_port_in_no_port_list_of_its_block': bool(flags & 1), 'visited_port_on_a_BidirWire': bool(flags & 2)})
+            V.spec_fail.append(d)
     if (1 if real else 0) != mv:
         d = dict(where)
         d.update({'what': 'model checkIntegrity and real checkIntegrity disagree', 'impl_raises': real, 'impl_exception': txt, 'model_verdict(0 ok,1 raise,2 fuel)': mv})
@@ -346,7 +351,7 @@ def run(ctx):
             ctx.violation({'what': 'proof obligation no longer checks', 'theorem': r.get('lemma'), 'file': r.get('file'), 'coq_error': r.get('msg')}, found_input=False)
     ctx.assumptions += ['Model/Build.v mirrors Logic.__init__, Wire.__init__, appendWire, setSource/addSource/addSink, In/Out/InOutPort constructors, '
                         'rename/reparent/reparentAndRename and debug.checkIntegrity/checkPort (checked on every run by the per-call differential, not verified)',
-                        'ordinary Wire only (BidirWire/FakeWire are outside the property); port.wire is never reassigned (Logic.reconnectIn is not modelled)',
+                        'Wire and BidirWire are modelled (FakeWire is not: it is in no table); port.wire is never reassigned (Logic.reconnectIn is not modelled)',
                         'whether a block is a primitive leaf (has a callable propagate/clock; ground truth computed by the harness, independent of Logic.isPrimitive) is fixed when the block is constructed',
                         'a constructor that raised leaves no reference to the half-built object with the caller']
 
